@@ -271,7 +271,7 @@ def _classify_unknown(res, mode, i, ino):
 # coder schedule from a trace
 # ---------------------------------------------------------------------------------------------------------------
 
-def derive_ops(evs, mode):
+def derive_ops(evs, mode, f=None):
     """From the events of one file: (ops list without ticks, call->op index map, outreg flag).
     ops entries: 'R<n>' 'W<n>' 'Z<n>' 'F<n>' 'I0' 'I1'.  Reads and writes interrupted by injected faults are merged
     (used for the fault-free reference and, for threaded modes, for lifting the observed trace itself)."""
@@ -346,7 +346,7 @@ def derive_ops(evs, mode):
             init(True)
         i += 1
     if not init_done:
-        init(mode.init_ok)
+        init(mode.init_ok if f is None else f.get("init_ok", mode.init_ok))
     return ops, owner, outreg
 
 
@@ -367,7 +367,7 @@ def with_ticks(ops, skip=()):
 
 def file_spec(mode, f, ops, outreg):
     return "%d:%d:%d:%d:%d:%s:%s" % (len(f["data"]), mode.skip, mode.gid, outreg, mode.pre_target and bool(f["dst"]),
-                                     "ok" if mode.valid else "err", ".".join(ops) or "-")
+                                     "ok" if f.get("valid", mode.valid) else "err", ".".join(ops) or "-")
 
 
 # ---------------------------------------------------------------------------------------------------------------
